@@ -37,6 +37,14 @@ def file_only_cases(rng):
             c = hist_case(d, True, ops, ids="sepstr", src="corpus-separators")
             c["fileonly"] = True
             yield c
+    # float ids (0.1 + 0.2, 1/3, 1e-7, 1e22): every digit of their shortest round-trip representation matters
+    for d in (0, 1):
+        for j in range(3):
+            ops = gen.random_history(rng, n_ops=rng.choice([3, 5, 8]), n_nodes=rng.choice([3, 5, 8]), p_reject=0.0, p_none=0.0, p_empty=0.0,
+                                     p_bulk=0.0, p_node=0.0, p_clear=0.0)
+            c = hist_case(d, True, ops, ids="flt", src="corpus-float-ids")
+            c["fileonly"] = True
+            yield c
     # hashtag-like ids ('#a', 'c#', '#'): written as they are and read back with another comment marker
     for d in (0, 1):
         for j in range(4):
@@ -217,7 +225,7 @@ class C10:
         # (few nodes, many runs per pair: the presence dump is quadratic in the number of nodes)
         prs = [(1, 2), (2, 3), (3, 1)]
         long_cases = [hist_case(d, True, [["add", prs[k % 3][0], prs[k % 3][1], 4 * (k // 3), 4 * (k // 3) + 2 + (k % 2)] for k in range(m)], src="corpus-long")
-                      for d, m in ((0, 620), (1, 2200))]
+                      for d, m in ((0, 620), (1, 2200), (0, 4300))]      # the last one is a file of more than 2**16 characters
         import itertools as _it
         for c in _it.chain(long_cases, file_only_cases(rng), io_histories(tier, rng, n)):
             c["io"] = [k % 4, (k // 4) % 12, (k // 48) % 4]   # target, delimiter, encoding: all 192 combinations cycle
